@@ -308,11 +308,49 @@ func ruleOrderO4(c *Ctx) {
 			}
 		}
 	}
+	// the drain may also be started by plain go statements on the ways out of
+	// Start (an extracted "discard the rest" helper called before each early
+	// return): every go statement of Start whose goroutine ranges over the same
+	// channel (or a local bound once to it) is a drain start
+	drains := map[*Node]bool{}
+	if drainN != nil {
+		drains[drainN] = true
+	}
+	isLinesCh := func(lf *Func, e ast.Expr) bool {
+		o := identObj(lf.Pkg.TypesInfo, e)
+		if o == nil || chV == nil {
+			return false
+		}
+		if o == chV {
+			return true
+		}
+		if v, ok := o.(*types.Var); ok && !v.IsField() {
+			if d := p.singleDef(f, v); d != nil && identObj(f.Pkg.TypesInfo, ast.Unparen(d)) == chV {
+				return true
+			}
+		}
+		return false
+	}
+	for _, cs := range ci.sites[f] {
+		if cs.Kind != "go" || len(cs.Callees) != 1 || cs.Callees[0].Lit == nil || cs.Node == nil || cs.Node == prodN {
+			continue
+		}
+		gl := cs.Callees[0]
+		ast.Inspect(gl.Body, func(x ast.Node) bool {
+			if rs, ok := x.(*ast.RangeStmt); ok && isLinesCh(gl, rs.X) {
+				drains[cs.Node] = true
+				if drainN == nil {
+					drainN = cs.Node
+				}
+			}
+			return true
+		})
+	}
 	if prodN == nil || drainN == nil {
 		c.R.Violate("R-ORDER/O4", p.Pos(f.Node()), f.Name, "stdout line producer and deferred drain", fmt.Sprintf("the goroutine sending stdout lines (%v) or the deferred goroutine draining the same channel (%v) was not found: after Start returns nobody receives the lines and the producer blocks", prodN != nil, drainN != nil), nil)
 		return
 	}
-	seen := g.ReachAfter(prodN, func(x *Node) bool { return x == drainN }, nil)
+	seen := g.ReachAfter(prodN, func(x *Node) bool { return drains[x] }, nil)
 	if _, bad := seen[g.Exit]; bad {
 		c.R.Violate("R-ORDER/O4", p.Pos(drainN.Ast), f.Name, "drain registered right after the producer", "Start can return between starting the stdout producer and registering the drain: the producer blocks on its channel and the plugin on its pipe", p.PathTo(seen, g.Exit))
 	} else {
